@@ -687,6 +687,107 @@ def _tree_strs(T):
     return [repr(t).replace(" ", "") for t in trees.all_rooted_binary(list(range(T)))]
 
 
+def _history_world(kind, values_index):
+    """real TreeLikelihoodModel (JC69, constant site model, strict clock for time trees) over a tree model of the given kind"""
+    from torchtree.core.parameter import Parameter
+    from torchtree.evolution.alignment import Alignment, Sequence
+    from torchtree.evolution.branch_model import StrictClockModel
+    from torchtree.evolution.datatype import NucleotideDataType
+    from torchtree.evolution.site_model import ConstantSiteModel
+    from torchtree.evolution.site_pattern import SitePattern
+    from torchtree.evolution.substitution_model.nucleotide import JC69
+    from torchtree.evolution.tree_likelihood import TreeLikelihoodModel
+    from torchtree.evolution.tree_model import UnRootedTreeModel, parse_tree
+    from specs import treemodels
+    names = ["A", "B", "C", "D"]
+    tree = ((0, 1), (2, 3))
+    dates = [0.0, 1.0, 0.0, 2.0]
+    seqs = ["ACGT", "CCGA", "GATT", "TAGA"]
+    if kind == "unrooted":
+        vals = [[0.1, 0.2, 0.3, 0.4, 0.5], [0.3, 0.1, 0.25, 0.2, 0.6], [0.2, 0.2, 0.1, 0.7, 0.3], [0.5, 0.4, 0.3, 0.2, 0.1], [0.15, 0.35, 0.55, 0.25, 0.45]]
+        taxa = treemodels.make_taxa(names, [0.0] * 4)
+        tm = UnRootedTreeModel("t", parse_tree(taxa, {"newick": treemodels.newick_of(tree, names)}), taxa,
+                               Parameter("bl", torch.tensor(vals[values_index], dtype=torch.float64)))
+        p = tm._branch_lengths
+        cm = None
+    elif kind == "time":
+        vals = [[1.5, 2.5, 3.0], [1.2, 2.2, 4.0], [1.8, 2.1, 2.6], [1.1, 3.0, 3.5], [1.6, 2.05, 5.0]]
+        tm, _ = treemodels.build_timetree(tree, names, dates, torch.tensor(vals[values_index], dtype=torch.float64))
+        p = tm._internal_heights
+        cm = StrictClockModel("clock", Parameter("rate", torch.tensor([0.3], dtype=torch.float64)), tm)
+    else:
+        vals = [[0.5, 0.25, 3.0], [0.3, 0.6, 4.0], [0.8, 0.1, 2.5], [0.45, 0.55, 5.0], [0.2, 0.9, 3.5]]
+        tm, _ = treemodels.build_reparam(tree, names, dates, torch.tensor(vals[values_index], dtype=torch.float64), "ratios")
+        taxa = treemodels.make_taxa(names, dates)
+        p = tm._internal_heights
+        cm = StrictClockModel("clock", Parameter("rate", torch.tensor([0.3], dtype=torch.float64)), tm)
+    taxa2 = treemodels.make_taxa(names, [0.0] * 4 if kind == "unrooted" else dates)
+    aln = Alignment("a", [Sequence(n, s_) for n, s_ in zip(names, seqs)], taxa2, NucleotideDataType(None))
+    like = TreeLikelihoodModel("like", SitePattern("sp", aln), tm, JC69("jc"), ConstantSiteModel("sm"), cm)
+    return like, tm, p, vals
+
+
+def likelihood_histories(kind, depth):
+    """EVERY history (length <= depth, ending in an evaluation) over {assign new tree parameters, in-place update + notification, read node
+    heights, read branch lengths, evaluate the likelihood} on a real TreeLikelihoodModel: each evaluation equals that of a freshly built
+    pipeline holding the current parameter values.  Returns (first failure | None, number of histories)."""
+    ops = ("set", "inplace", "heights", "bl", "like")
+    fresh = {}
+
+    def fresh_value(i):
+        if i not in fresh:
+            fresh[i] = _history_world(kind, i)[0]().detach().clone()
+        return fresh[i]
+    n = 0
+    for d in range(1, depth + 1):
+        for hist in itertools.product(ops, repeat=d):
+            if hist[-1] != "like" or (kind == "unrooted" and "heights" in hist):
+                continue
+            n += 1
+            like, tm, p, vals = _history_world(kind, 0)
+            cur = 0
+            for k, op in enumerate(hist):
+                if op == "set":
+                    cur += 1
+                    p.tensor = torch.tensor(vals[cur], dtype=torch.float64)
+                elif op == "inplace":
+                    cur += 1
+                    with torch.no_grad():
+                        p.tensor.copy_(torch.tensor(vals[cur], dtype=torch.float64))
+                    p.fire_parameter_changed()
+                elif op == "heights":
+                    tm.node_heights
+                elif op == "bl":
+                    tm.branch_lengths()
+                else:
+                    got = like()
+                    want = fresh_value(cur)
+                    if got.shape != want.shape or not torch.allclose(got.detach(), want, rtol=1e-10, atol=1e-12):
+                        return (list(hist[:k + 1]), got.detach().tolist(), want.tolist()), n
+    return None, n
+
+
+def ob_likelihood_history(kind, depth):
+    def body():
+        bad, n = likelihood_histories(kind, depth)
+        if bad is not None:
+            hist, got, want = bad
+            raise Refuted("%s tree: after the history %s the likelihood is %s, a freshly built pipeline with the current parameter values gives %s"
+                          % (kind, hist, got, want), witness={"kind": kind, "history": hist},
+                          replay={"kind": "custom", "contract": "C01", "func": "replay_likelihood_history", "args": {"kind": kind, "depth": depth}}, confirmed=True)
+        return {"backend": "heap", "cases": n, "statement": "%d histories of updates / reads / evaluations (%s tree): every evaluation is the marginal likelihood of the CURRENT parameter values" % (n, kind)}
+    return Ob("C01.model.history[%s,depth<=%d]" % (kind, depth), "B", body,
+              clause="the log-likelihood returned is that of the current parameter values after every history of updates and reads", funcs=FUNCS)
+
+
+def replay_likelihood_history(args):
+    try:
+        ob_likelihood_history(args["kind"], args["depth"]).fn()
+    except Refuted as e:
+        return False, e.detail
+    return True, "held"
+
+
 def obligations(tier, seed):
     rng = random.Random(seed)
     obs = []
@@ -781,6 +882,17 @@ def obligations(tier, seed):
         add("C01.model.rescaled[((A,B),(C,D));,time,strict,tipstates=%s]" % ts_, "scn_model",
             ("((A,B),(C,D));", ["A", "B", "C", "D"], ["ACA", "CGC", "GTG", "TNT"], [0.0, 1.0, 0.0, 2.0], "time", "strict", "constant", 1, ts_, True, (), "stub", True),
             "TreeLikelihoodModel pipeline with rescaling on ≡ marginal sum", fns={"P": lambda t, i, j: _pfun(t, i, j, 4)})
+    # rescaling on AND a sample dimension (the scalers are per sample)
+    for ts_ in (False, True):
+        for b in ((2,), (3,)):
+            add("C01.model.rescaled[((A,B),C);,unrooted,tipstates=%s,batch=%s]" % (ts_, b), "scn_model",
+                ("((A,B),C);", ["C", "A", "B"], ["ACRA", "CGNC", "GT-G"], [0.0, 0.0, 0.0], "unrooted", None, "constant", 1, ts_, True, b, "stub", True),
+                "TreeLikelihoodModel pipeline with rescaling on ≡ marginal sum (batched)", fns={"P": lambda t, i, j: _pfun(t, i, j, 4)})
+    add("C01.model.rescaled[((A,B),C);,time,strict,batch=(2,)]", "scn_model",
+        ("((A,B),C);", ["A", "B", "C"], ["ACA", "CGC", "GTG"], [0.0, 1.0, 0.0], "time", "strict", "constant", 1, False, True, (2,), "stub", True),
+        "TreeLikelihoodModel pipeline with rescaling on ≡ marginal sum (batched)", fns={"P": lambda t, i, j: _pfun(t, i, j, 4)})
+    for kind in ("time", "ratios", "unrooted"):
+        obs.append(ob_likelihood_history(kind, 4 if tier == "quick" else 5))
     for T in (3, 4, 5, 6):
         obs.append(ob_postorder(T, tier, seed))
     obs.append(ob_tips())
